@@ -265,7 +265,9 @@ def t3_rsp(sx, n):
 def t4_ats(sx, n):
     w = worlds.T4World(sx, 0x20, 255, 255, 16, 3, fill=0x41)
     card = w.sim
-    ats = [n] + [sx.byte("ats[%d]" % i) for i in range(1, n)]
+    # the length byte TL is symbolic as well (an answer whose TL disagrees
+    # with the number of bytes received is still a well-framed answer)
+    ats = [sx.byte("ats[0]")] + [sx.byte("ats[%d]" % i) for i in range(1, n)]
     card.ats = lambda: ats
     return exercise(sx, w, "tt4:ats", max_cmds=80)
 
